@@ -926,7 +926,7 @@ class FunctionAnalysis:
         return out
 
     def _remember(self, inst, st):
-        if inst.op in ("getelementptr", "call", "store", "load", "ret"):
+        if inst.op in ("getelementptr", "call", "store", "load", "ret", "trunc"):
             lst = self.pre[inst.id]
             sg = st.sig()
             if len(lst) < 64 and all(x.sig() != sg for x in lst):
